@@ -282,8 +282,8 @@ func cpuNow() time.Duration {
 // goroutine dumps 700 ms apart all show the same goroutine running (or runnable) inside the same
 // library function, and the process burned at least one core-second meanwhile.  Proved: the case
 // is a violation (key runaway:<function>), the partial lane result is written and the process
-// ends (a spinning goroutine cannot be stopped).  Not proved: inconclusive, the lane goes on
-// waiting and the driver's lane timeout is the backstop.
+// ends (a spinning goroutine cannot be stopped).  Not proved: the lane goes on, the
+// examination is repeated after another limit, and the driver's lane timeout is the backstop.
 func (r *Report) runaway(id string, limit time.Duration, input any) {
 	c0 := cpuNow()
 	var common map[string]string
@@ -312,7 +312,14 @@ func (r *Report) runaway(id string, limit time.Duration, input any) {
 		return // the case ended while it was being examined
 	}
 	if len(common) == 0 || cpu < time.Second {
-		r.Inconclusive(fmt.Sprintf("case %s not finished after %v; no goroutine proved to be spinning in library code (cpu %v in 2.1 s)", id, limit, cpu))
+		// slow, not proved to be spinning: look again later; a case that never ends is stopped by
+		// the driver's lane timeout and reported inconclusive there
+		r.Obs("slow_cases_examined_without_runaway_proof", 1)
+		r.mu.Lock()
+		if _, still := r.watch[id]; still {
+			r.watch[id] = time.AfterFunc(limit, func() { r.runaway(id, limit, input) })
+		}
+		r.mu.Unlock()
 		return
 	}
 	var fns []string
